@@ -368,14 +368,15 @@ def handover(prog, run, only_methods=None):
         m = prog.find_method(ci, mname)
         callee = prog.func(callee_q)
         f = rel(prog.mods[m.mod].path)
-        calls = [c for c, r in prog.calls_in(m) if isinstance(r, FuncInfo) and r.qual == callee.qual]
-        if not calls:
+        recs = astq.forwarded_args(prog, m, callee.qual, depth=2)
+        if not recs:
             run.ob("R-handover", m.qual, f"call of {callee.node.name}", False, f"{mname} does not call {callee.node.name}", "missing", file=f)
             continue
-        call = calls[0]
-        b, errs = astq.bind_args(callee.node, call)
-        for e in errs:
-            run.ob("R-handover", m.qual, "call conformance", False, e, e, file=f, node=call)
+        rec = recs[0]
+        call, holder, b = rec["call"], rec["holder"], rec["args"]
+        fh = rel(prog.mods[holder.mod].path)
+        for e in rec["errors"]:
+            run.ob("R-handover", m.qual, "call conformance", False, e, e, file=fh, node=call)
         pos, _, _, _ = astq.params_of(callee.node)
         roles = dict(ARG_FIELDS)
         # positional table parameters by position (names in the callee may change): 1,2,3 = Fn, Xi, Phi tables
@@ -384,35 +385,40 @@ def handover(prog, run, only_methods=None):
             if p in ARG_FIELDS and p not in roles:
                 roles[p] = ARG_FIELDS[p]
         for p, field in roles.items():
-            a = b.get(p)
-            if a is None:
+            if p in rec["missing"]:
                 if p in ("Lab",) or p.endswith("_cov"):
                     if p.endswith("_cov") and has_cov:
-                        run.ob("R-handover", m.qual, f"{p} <- result.{field}", False, f"{callee.node.name}.{p} is not passed: covariances of the selected poles are lost", "not passed", file=f, node=call)
+                        run.ob("R-handover", m.qual, f"{p} <- result.{field}", False if rec["complete"] else None, f"{callee.node.name}.{p} is not passed: covariances of the selected poles are lost", "not passed", file=fh, node=call)
                     continue
-                run.ob("R-handover", m.qual, f"{p} <- result.{field}", False, f"{p} not passed", "not passed", file=f, node=call)
+                run.ob("R-handover", m.qual, f"{p} <- result.{field}", False if rec["complete"] else None, f"{p} not passed", "not passed", file=fh, node=call)
                 continue
-            x = astq.expr_at(m, call, a)
+            x = b.get(p)
+            if x is None:
+                run.ob("R-handover", m.qual, f"{p} <- result.{field}", None, f"argument for {p} could not be expressed in the scope of {mname}", file=fh, node=call)
+                continue
             if p == "Lab" and isinstance(x, ast.Constant) and x.value is None:
-                run.ob("R-handover", m.qual, f"{p} <- None (orders picked by hand)", True, "Lab=None", file=f, node=call)
+                run.ob("R-handover", m.qual, f"{p} <- None (orders picked by hand)", True, "Lab=None", file=fh, node=call)
                 continue
             ok = astq.src(x) == f"self.result.{field}"
-            run.ob("R-handover", m.qual, f"{p} <- result.{field}", ok, f"`{astq.src(x, 50)}`", astq.src(x, 50), file=f, node=call)
+            run.ob("R-handover", m.qual, f"{p} <- result.{field}", ok, f"`{astq.src(x, 50)}`", astq.src(x, 50), file=fh, node=call)
         # requested frequencies / order / rtol
         mpos, _, _, _ = astq.params_of(m.node)
         for p, want in ((pos[0], "sel_freq"), (pos[4], "order"), ("rtol", "rtol")):
-            a = b.get(p)
-            if a is None:
-                run.ob("R-handover", m.qual, f"{p} <- {want}", False, f"{p} not passed (default used)", "not passed", file=f, node=call)
+            if p in rec["missing"]:
+                run.ob("R-handover", m.qual, f"{p} <- {want}", False if rec["complete"] else None, f"{p} not passed (default used)", "not passed", file=fh, node=call)
                 continue
-            x = astq.expr_at(m, call, a)
+            x = b.get(p)
+            if x is None:
+                run.ob("R-handover", m.qual, f"{p} <- {want}", None, f"argument for {p} could not be expressed in the scope of {mname}", file=fh, node=call)
+                continue
             if mname == "mpe":
                 ok = isinstance(x, ast.Name) and x.id == want and want in mpos
             else:
                 s = astq.src(x, 80)
                 ok = (want == "rtol" and isinstance(x, ast.Name) and x.id == "rtol") or \
                      (want == "sel_freq" and s.endswith(".result[0]") and "SelFromPlot" in s) or (want == "order" and s.endswith(".result[1]") and "SelFromPlot" in s)
-            run.ob("R-handover", m.qual, f"{p} <- {want}", ok, f"`{astq.src(x, 60)}`", astq.src(x, 60), file=f, node=call)
+            run.ob("R-handover", m.qual, f"{p} <- {want}", ok, f"`{astq.src(x, 60)}`", astq.src(x, 60), file=fh, node=call)
+        m_outer, m, f = m, holder, fh
         # stores: self.result.X = <name unpacked at the position where the callee returns X>
         ret_names = None
         for r in ast.walk(callee.node):
@@ -423,15 +429,22 @@ def handover(prog, run, only_methods=None):
         for s in ast.walk(m.node):
             if isinstance(s, ast.Assign) and s.value is call and isinstance(s.targets[0], ast.Tuple):
                 unpack = [e.id if isinstance(e, ast.Name) else None for e in s.targets[0].elts]
+                direct = [(e, s) if isinstance(e, ast.Attribute) else None for e in s.targets[0].elts]
         if ret_names is None or unpack is None:
-            run.ob("R-handover", m.qual, "stores", None, "return tuple / unpacking not recognised", file=f, node=call)
+            run.ob("R-handover", m_outer.qual, "stores", None, "return tuple / unpacking not recognised", file=f, node=call)
             continue
         if len(unpack) != len(ret_names):
-            run.ob("R-handover", m.qual, "unpacking arity", False, f"{len(unpack)} targets for {len(ret_names)} returned values", "arity", file=f, node=call)
+            run.ob("R-handover", m_outer.qual, "unpacking arity", False, f"{len(unpack)} targets for {len(ret_names)} returned values", "arity", file=f, node=call)
             continue
         local2role = {u: r for u, r in zip(unpack, ret_names) if u and r}
         stored = {}
         import copy as _copy
+        # returned values unpacked straight into attributes: res.Fn, res.Xi, ... = callee(...)
+        for d_, role in zip(direct, ret_names):
+            if d_ is not None and role:
+                obj = astq.expr_at(m, d_[1], _copy.deepcopy(d_[0].value))
+                if astq.src(obj) == "self.result":
+                    stored[d_[0].attr] = (role, d_[1])
         for s in ast.walk(m.node):
             if not (isinstance(s, ast.Assign) and len(s.targets) == 1):
                 continue
@@ -449,10 +462,10 @@ def handover(prog, run, only_methods=None):
                 continue
             field = role
             if field not in stored:
-                run.ob("R-handover", m.qual, f"result.{field} stored", False, f"returned {role} is not stored in result.{field}", "not stored", file=f, node=call)
+                run.ob("R-handover", m_outer.qual, f"result.{field} stored", False, f"returned {role} is not stored in result.{field}", "not stored", file=f, node=call)
                 continue
             got, snode = stored[field]
-            run.ob("R-handover", m.qual, f"result.{field} <- returned {role}", got == role, f"result.{field} receives the returned {got}", got, file=f, node=snode)
+            run.ob("R-handover", m_outer.qual, f"result.{field} <- returned {role}", got == role, f"result.{field} receives the returned {got}", got, file=f, node=snode)
 
 
 S, PL = "functions.ssi", "functions.plscf"
